@@ -228,6 +228,16 @@ def bits(a):
     return np.asarray(a, dtype=float).tobytes()
 
 
+def near(a, b, rel=1e-12):
+    """equal up to rounding (a harmless regrouping of the arithmetic may move
+    the last bits; the bit-exact comparison is the model correspondence's)"""
+    a, b = np.asarray(a, float), np.asarray(b, float)
+    if a.shape != b.shape:
+        return False
+    sc = max(float(np.max(np.abs(b))) if b.size else 0.0, 1e-300)
+    return bool(np.all(np.abs(a - b) <= rel * sc))
+
+
 def tp_oracles(force, idp):
     """np.average / np.std values used inside find_turning_point"""
     avg = np.average(force[:idp])
@@ -268,7 +278,7 @@ def check_step(run, name, step, opts, B, A, ob, k, exprs, descr):
 
     if step == "compute_tip_position":
         h, f, tip = B["height (measured)"], B["force"], A["tip position"]
-        if bits(tip) != bits(h + f / k):
+        if not near(tip, h + f / k):
             fail("tip position is not height + force / spring constant",
                  "C07_tip_position")
         exprs.append(f"floats_same (f_tip_position {coq_float(k)} {flist(h)} "
@@ -304,7 +314,7 @@ def check_step(run, name, step, opts, B, A, ob, k, exprs, descr):
             if new[cpid] != 0:
                 fail("tip position is not zero at the contact index",
                      "C07_tip_offset")
-            if bits(new) != bits(tip - tip[cpid]):
+            if not near(new, tip - tip[cpid]):
                 fail("tip position changed by more than one constant",
                      "C07_tip_offset")
         exprs.append(f"ok_same (f_tip_offset {cpid} {flist(tip)}) "
@@ -689,7 +699,7 @@ def pipeline_history_cases(run):
                         f_ = np.asarray(cols["force"])
                         if "correct_tip_offset" not in p2 and \
                                 "correct_force_offset" not in p2 and \
-                                bits(tp) != bits(hm + f_ / k):
+                                not near(tp, hm + f_ / k):
                             why = ("tip position is not recorded height + "
                                    "force / k")
                 except BaseException as e:
